@@ -42,7 +42,9 @@ class CallMixin:
                 g[key] = Sym("seq", Q.Concat(st, cur.t, Q.Unit(st, ev)), Spec("seq", VAL))
                 st.notes["ghost_appends"] = g
                 # the result of the k-th recorded call is a function of (its arguments, k): specs name it call_result(key, k)
-                return S_val(uf("rec:" + key, V, IntS, V)(ev, Q.Length(cur.t)))
+                rv = uf("rec:" + key, V, IntS, V)(ev, Q.Length(cur.t))
+                rspec = getattr(self.contract, "record_result_specs", {}).get(key)
+                return unbox(rspec, rv, st) if rspec is not None else S_val(rv)
         lc = getattr(self.contract, "local_contracts", None)
         if lc:
             key = ast.unparse(fn)
